@@ -172,6 +172,8 @@ def check_history(ctx, case):
         c = dict(stp)
         c["rooted"] = tree.is_rooted
         c["lenpat"] = case["lenpat"]
+        if k:
+            ctx.evaluations += 1   # every step of a history is one judged (tree, operation) case
         res = run_variant(ctx, tree, ns, bits, c, spec, step=k, taxa=taxa)
         if res is None:
             return
